@@ -3,7 +3,7 @@
     what the implementation returned.  [*_mismatch]: model vs implementation.
     [*_violates]: the property acceptor rejects what the implementation did. *)
 From Coq Require Import Uint63.
-From WM Require Import Base.Prelude Message.Model Value.Model Value.Codec Value.Json Value.Reuse Value.Scan Value.Sorted Value.JsonInt.
+From WM Require Import Base.Prelude Message.Model Value.Model Value.Codec Value.Json Value.Reuse Value.Scan Value.Sorted Value.JsonInt Value.Small Value.ProtoWire.
 
 (** long byte strings arrive packed, 7 bytes per primitive 63-bit integer (little endian), the
     last word holding [tail] bytes: one cheap token per 7 bytes for Coq's parser.  Only the
@@ -299,7 +299,7 @@ Definition jw_violates (c : jw_case) : bool :=
   | None => match jw_got c with Ok (d, _) => str_eqb d [] | Err _ => false end
   end.
 (** message context through the envelope: the model's wrap_c / unwrap_c against the observed contexts *)
-Record ctx_case := CtxC { x_in : N; x_delivered : N; x_wrapped : N; x_unwrapped : N }.
+Record ctx_case := CtxC { x_in : N; x_delivered : N; x_wrapped : N; x_unwrapped : N; x_copy : N; x_orig_after : N }.
 Definition ctx_mismatch (c : ctx_case) : bool :=
   let m0 := Msg [] None None in
   match wrap_c (fun _ => Some []) [85]%N [116]%N (m0, x_in c) with
@@ -308,7 +308,10 @@ Definition ctx_mismatch (c : ctx_case) : bool :=
             && match unwrap_c (fun _ => Some (env_of [116]%N m0)) (fst w, x_delivered c) with
                | Ok (_, (_, cu)) => N.eqb cu (x_unwrapped c)
                | Err _ => false
-               end)
+               end
+            (* Copy() of the message: no context on the copy, the original keeps its own *)
+            && N.eqb (snd (copy_c (set_context (m0, 0%N) (x_in c)))) (x_copy c)
+            && N.eqb (snd (set_context (m0, 0%N) (x_in c))) (x_orig_after c))
   | Err _ => true
   end.
 Definition ctx_mismatches (cs : list ctx_case) := positions (map ctx_mismatch cs).
@@ -374,6 +377,57 @@ Record ji_case := JiC { i_z : Z; i_enc : list N; i_in : list N; i_dec : option Z
 Definition ji_mismatch (c : ji_case) : bool :=
   negb (bytes_eqb (enc_int (i_z c)) (i_enc c) && option_eqb Z.eqb (dec_int (i_in c)) (i_dec c)).
 Definition ji_mismatches (cs : list ji_case) := positions (map ji_mismatch cs).
+
+(** round "proofs 3": Messages.IDs, LogFields.Add / Copy, identifier formats *)
+Inductive sm_case :=
+| SmIds (ms : list msg) (got : list str)
+| SmAdd (l new : option metadata) (got : metadata) (unchanged : bool)
+| SmCopy (l : option metadata) (got : metadata) (unchanged : bool)
+| SmId (kind : nat) (s : str).
+Definition sm_mismatch (c : sm_case) : bool :=
+  match c with
+  | SmIds ms got => negb (list_eqb str_eqb (ids ms) got)
+  | SmAdd l new got u => negb (md_same_b (Some (lf_add l new)) (Some got) && u)
+  | SmCopy l got u => negb (md_same_b (Some (lf_copy l)) (Some got) && u)
+  | SmId k s => negb (match k with 0 => uuid4_format s | 1 => shortuuid_format s | _ => ulid_format s end)
+  end.
+Definition sm_mismatches (cs : list sm_case) := positions (map sm_mismatch cs).
+
+(** protobuf wire bytes of the wrapper messages *)
+Inductive pw_val := PwBytes (b : list N) | PwInt (z : Z) | PwBool (b : bool).
+Definition pw_val_eqb (x y : pw_val) : bool :=
+  match x, y with
+  | PwBytes a, PwBytes b => bytes_eqb a b
+  | PwInt a, PwInt b => Z.eqb a b
+  | PwBool a, PwBool b => Bool.eqb a b
+  | _, _ => false
+  end.
+Record pw_case := PwC { w_kind : nat; w_v : pw_val; w_enc : option (list N); w_in : list N; w_mustfail : bool; w_dec : option pw_val }.
+Definition pw_enc (k : nat) (v : pw_val) : option (list N) :=
+  match k, v with
+  | 0, PwBytes s => enc_string_msg s
+  | 1, PwBytes s => Some (enc_len_msg s)
+  | 2, PwInt z => Some (enc_int64_msg z)
+  | 3, PwBool b => Some (enc_bool_msg b)
+  | _, _ => None
+  end.
+Definition pw_dec (k : nat) (b : list N) : option pw_val :=
+  match k with
+  | 0 => option_map PwBytes (dec_string_msg b)
+  | 1 => option_map PwBytes (dec_len_msg b)
+  | 2 => option_map PwInt (dec_int64_msg b)
+  | _ => option_map PwBool (dec_bool_msg b)
+  end.
+(** the model writes the library's bytes; where the model's decoder answers, the library gives the
+    same value; what must be refused is refused by both *)
+Definition pw_mismatch (c : pw_case) : bool :=
+  negb (option_eqb bytes_eqb (pw_enc (w_kind c) (w_v c)) (w_enc c)
+        && match pw_dec (w_kind c) (w_in c) with
+           | Some v => option_eqb pw_val_eqb (w_dec c) (Some v)
+           | None => true
+           end
+        && (if w_mustfail c then match pw_dec (w_kind c) (w_in c), w_dec c with None, None => true | _, _ => false end else true)).
+Definition pw_mismatches (cs : list pw_case) := positions (map pw_mismatch cs).
 
 Definition js_mismatches (cs : list js_case) := positions (map js_mismatch cs).
 Definition b64_mismatches (cs : list b64_case) := positions (map b64_mismatch cs).
